@@ -831,6 +831,18 @@ func threadJobs(tier string) []Job {
 			}
 		}
 	}
+	hd := hc
+	hd.MaxLoop = 1200
+	for op := int64(0); op <= 4; op++ {
+		for _, mode := range []int64{1, 2} {
+			jobs = append(jobs, Job{Pkg: "handlers/dhcp4_spoofer", Func: "VerifC09DHCP", Args: []int64{op, mode}, Cfg: hd, Threads: true, Reach: r})
+		}
+	}
+	for op := int64(0); op <= 2; op++ {
+		for k := int64(0); k <= 1; k++ {
+			jobs = append(jobs, Job{Pkg: "handlers/dns_naming", Func: "VerifC09DNS", Args: []int64{op, k}, Cfg: hd, Threads: true, Reach: r})
+		}
+	}
 	if tier == "thorough" {
 		for _, va := range []int64{0, 1, 4} {
 			for _, x := range []int64{2, 6, 12, 13, 14} {
@@ -850,7 +862,7 @@ func init() {
 			m := map[string]string{
 				"threads":  "2 goroutines (thorough: also 3: packet loop + purge + one API caller), one operation each, started from a table with MAC1{2 IPv4 hosts} and MAC2{1 host} whose online flags and ages are symbolic",
 				"ops":      "packet loop (Parse+Notify of a frame refreshing a host / claiming another MAC's address / from a new host), purge(now), FindIP, GetHosts, FindByMAC, FindMACEntry, Capture, Release, IsCaptured, IPAddrs, DHCP offer accessors, PrintTable, DHCPv4Update, Host.UpdateMDNSName, Close",
-				"handlers": "ARP handler: spoof loop (started by StartHunt) || one of ProcessPacket (ARP request from the victim), StopHunt, StartHunt of another host, IsHunting, PrintTable, StopHunt+StartHunt || optional early Close; ICMPv6 handler: NA spoof loop || one of ProcessPacket (router advertisement), StopHunt, StartHunt, PrintTable, StopHunt+StartHunt || optional early Close or a concurrent ProcessPacket, with and without a known router; the session's own background goroutines are not started; timers fire at most once per path; every run ends with Close and must leave no goroutine blocked",
+				"handlers": "ARP handler: spoof loop (started by StartHunt) || one of ProcessPacket (ARP request from the victim), StopHunt, StartHunt of another host, IsHunting, PrintTable, StopHunt+StartHunt || optional early Close; ICMPv6 handler: NA spoof loop || one of ProcessPacket (router advertisement), StopHunt, StartHunt, PrintTable, StopHunt+StartHunt || optional early Close or a concurrent ProcessPacket, with and without a known router; the session's own background goroutines are not started; timers fire at most once per path; every run ends with Close and must leave no goroutine blocked; DHCP handler: ProcessPacket (DISCOVER of a new client, primary and secondary mode, one lease that may be expired) || one of MinuteTicker, PrintTable, StartHunt, StopHunt, Close; naming handler: ProcessDNS (new name / name already stored) || one of DNSFind (and reading the returned copy), DNSExist, PrintDNSTable",
 				"schedule": "quick: non-preemptive schedules (every order in which threads start / resume after blocking); thorough: one preemption at any acquire. The happens-before race check is schedule independent for the code executed on a path",
 			}
 			return m
@@ -861,6 +873,6 @@ func init() {
 			"background goroutines (purgeLoop, handler loops) are represented by direct calls of their bodies (purge(now)) in a harness thread",
 			"supported pattern: ONE goroutine runs Parse / Notify / DHCPv4Update (the DHCP handler calls it from the packet loop); they are not run concurrently with each other (the check-then-act window of findOrCreateHostWithLock between its read-locked lookup and its write-locked insert is therefore outside the property)",
 		},
-		Outside: []string{"more than 3 goroutines / more than one operation per goroutine", "DHCP and DNS handler locks (their entry points run inside the packet loop)", "schedules beyond the preemption bound", "Close stopping real background goroutines (timers)"},
+		Outside: []string{"more than 3 goroutines / more than one operation per goroutine", "schedules beyond the preemption bound", "Close stopping real background goroutines (timers)"},
 	})
 }
